@@ -1893,7 +1893,15 @@ class AbelianArray(BlockBase):
         _zeros = ar.get_lib_fn(backend, "zeros")
         zeros_kwargs = {}
         if hasattr(_ex_array, "dtype"):
-            zeros_kwargs["dtype"] = _ex_array.dtype
+            dtype = _ex_array.dtype
+            for array in self._blocks.values():
+                if array.dtype != dtype:
+                    # blocks of differing type (e.g. real + sparse complex):
+                    # promote, so nothing is lost inserting into the zeros
+                    dtype = ar.do(
+                        "result_type", dtype, array.dtype, like=backend
+                    )
+            zeros_kwargs["dtype"] = dtype
         if hasattr(_ex_array, "device"):
             zeros_kwargs["device"] = _ex_array.device
 
